@@ -137,9 +137,11 @@ class ExecRun:
             suspended_now = {cid for (cid, _) in tick['susp']}
             ent['new'] = new
             ent['demand'] = {}
+            ent['age'] = {}
             for cid in [c for c in prev_active if c not in suspended_now] + new:
                 inf = self.info[cid]
                 inf['age'] += 1
+                ent['age'][cid] = inf['age']
                 ent['demand'][cid] = inf['full'][inf['age'] - 1] if inf['age'] - 1 < len(inf['full']) else None
             ent['results'] = [dict(cid=int(r.container_id[1:]) - self.base, ops=[self.w.gid[o] for o in r.ops],
                                    cpu=r.cpu, ram=r.ram, prio=PRIO_VAL[r.priority], pool=r.pool_id,
